@@ -164,6 +164,11 @@ def run_config(case, dname, dtype, ren, sname, form):
         dk = dtype_kind(arr.dtype)
     classes = list(RENAMINGS[ren][:case["K"]]) if case["explicit"] else None
     ndim = cy["ndim"]
+    fortran = False
+    if form == "ndarray" and ndim == 2 and min(arr.shape) > 1 and (sum(cy["flat"]) + len(sname)) % 2 == 1:
+        # a label matrix stored annotator-major / handed over as a transposed view (Fortran order)
+        y_in = np.asfortranarray(arr)
+        fortran = True
     events = []
     n = 0
     for ev, fn in (("IsUnlabeled", is_unlabeled), ("IsLabeled", is_labeled)):
@@ -226,7 +231,7 @@ def run_config(case, dname, dtype, ren, sname, form):
              "sent": skind, "dtype": dk, "form": "ndarray" if form == "ndarray" else "list",
              "events": events,
              "concrete": {"y": repr(y_in), "missing_label": repr(sent), "classes": repr(classes),
-                          "dtype": dname, "input_as": form,
+                          "dtype": dname, "input_as": form + (" (Fortran order)" if fortran else ""),
                           "fit_transform_encoder_configured_before_for_classes": repr(past)}}
     return trace, n
 
